@@ -347,6 +347,25 @@ pub fn cases(tier: Tier) -> Vec<Case> {
             }
         }
     }
+    // (a+) thorough: every ordered triple from a smaller packing alphabet, same channel, one tick
+    if tier == Tier::Thorough {
+        let t_lens = [0usize, 1, 1199, 1200, 1201];
+        for dir in 0..2 {
+            for ch in 0..3u8 {
+                for &a in &t_lens {
+                    for &b in &t_lens {
+                        for &c in &t_lens {
+                            let msgs = vec![(ch, a), (ch, b), (ch, c)];
+                            let n = batch_len(dir, &msgs);
+                            for o in orders(n, 5) {
+                                out.push(Case { name: format!("triple {}+{}+{} ch{} dir{}", a, b, c, ch, dir), dir, msgs: msgs.clone(), order: o, drain_each: false, bytes_per_tick: 0 });
+                            }
+                        }
+                    }
+                }
+            }
+        }
+    }
     // (a'') messages larger than the sender's tick budget leave over several ticks (send rounds that stop
     // in the middle of a message), with the first tick's batch permuted / duplicated / thinned as above
     for dir in 0..2 {
